@@ -32,6 +32,9 @@ pub enum Oracle {
     /// C14: cycles through non-recovering functions: a request ends in the least fixpoint, a cycle
     /// panic or a propagated panic; with `true`, no request into the cycle may return a value
     PlainCycle(bool),
+    /// C22: a marker panic is injected at the n-th user-code callback point (global order of the
+    /// schedule) while the threads run; -1 = counting run
+    Fault(i64),
 }
 
 #[derive(Clone, Debug, Serialize, Deserialize)]
@@ -98,6 +101,126 @@ fn outs_class(outs: &[Vec<Out>]) -> String {
         .collect::<Vec<_>>()
         .join(" | ")
 }
+
+/// C22 (second half): the threads run their requests while a marker panic is injected at the
+/// `inject`-th callback point; afterwards everything is requested again.
+fn fault_body(sc: &Scen, inject: i64) {
+    use ql::val::inj;
+    let prog = Arc::new(sc.prog.clone());
+    let mut sess = Sess::new(prog.clone());
+    let mut world = World::new(&prog);
+    sess.db.cx_arc().event_points.store(true, std::sync::atomic::Ordering::SeqCst);
+    sess.db.cx_arc().logging.store(false, std::sync::atomic::Ordering::SeqCst);
+    for op in &sc.setup {
+        let _ = world.apply_write(&prog, op);
+        let _ = sess.apply(op);
+    }
+    inj::arm(inject);
+    let handles: Vec<_> = sc
+        .threads
+        .iter()
+        .map(|ops| {
+            let db = sess.db.clone();
+            let ops = ops.clone();
+            shuttle::thread::spawn(move || {
+                let outs: Vec<Out> = ops.iter().map(|op| request(&db, op)).collect();
+                drop(db);
+                outs
+            })
+        })
+        .collect();
+    let mut outs: Vec<Vec<Out>> = Vec::new();
+    for h in handles {
+        match h.join() {
+            Ok(o) => outs.push(o),
+            Err(_) => {
+                inj::disarm();
+                viol(&format!("thread-panic:{}", sc.name), "a thread panicked outside a request".into());
+                return;
+            }
+        }
+    }
+    let points = inj::disarm();
+    let fired = inj::fired();
+    let kind = inj::fired_kind();
+    bump("callback_points_max", 0);
+    MAX_POINTS.fetch_max(points, std::sync::atomic::Ordering::SeqCst);
+    if fired {
+        bump("schedules_with_injected_panic", 1);
+        bump("nontrivial_schedules", 1);
+    }
+    outcome(format!("{}: {}{}", sc.name, outs_class(&outs), if fired { format!(" [panic at {kind:?}]") } else { String::new() }));
+    // oracle: the marker reaches exactly the caller whose computation ran the callback; the
+    // others see the reference value or, if they waited for that computation / read its poisoned
+    // cycle head in this revision, a propagated panic
+    let cyclic = prog.nodes.iter().any(|n| matches!(n.kind, Kind::Fx | Kind::Fxj | Kind::Fb));
+    let mut injected_seen = 0;
+    for (t, ops) in sc.threads.iter().enumerate() {
+        let exp = expected_for(&world, ops);
+        for (i, (e, o)) in exp.iter().zip(outs[t].iter()).enumerate() {
+            let ok = match o {
+                Out::Panic(Pk::Injected(_)) => {
+                    injected_seen += 1;
+                    fired
+                }
+                Out::Panic(Pk::CancelPropagated) => fired,
+                _ => out_matches(e, o),
+            };
+            if !ok {
+                viol(&format!("fault-concurrent-result:{}", sc.name), format!("thread {t} request {i} {:?}: expected {e:?} (or the injected / a propagated panic), observed {o:?}; panic injected: {fired} at {kind:?}", ops[i]));
+                return;
+            }
+        }
+    }
+    if fired && injected_seen != 1 {
+        viol(&format!("marker-lost:{}", sc.name), format!("a panic was injected at callback point {inject} ({kind:?}) but {injected_seen} requests ended with it: {}", outs_class(&outs)));
+        return;
+    }
+    // afterwards (injection off): in the same revision for programs without cycles, after one
+    // more revision for all
+    let mut rounds: Vec<bool> = vec![true];
+    if !cyclic {
+        rounds.insert(0, false);
+    }
+    for new_rev in rounds {
+        if new_rev {
+            let op = Op::Syn(ql::ex::Dur::Low);
+            let _ = world.apply_write(&prog, &op);
+            if let Out::Panic(p) = sess.apply(&op) {
+                viol(&format!("fault-later-write:{}", sc.name), format!("the write after the panic panicked: {p:?}"));
+                return;
+            }
+        }
+        for n in 0..prog.nodes.len() as u8 {
+            let op = Op::Q(n);
+            let e = world.expect(&op);
+            let o = sess.apply(&op);
+            if !out_matches(&e, &o) {
+                viol(
+                    &format!("fault-later-result:{}", sc.name),
+                    format!("after a panic injected at point {inject} ({kind:?}), {} request {op:?}: expected {e:?}, observed {o:?}", if new_rev { "in the next revision" } else { "in the same revision" }),
+                );
+                return;
+            }
+        }
+    }
+    bump("schedules_checked", 1);
+}
+
+/// Number of callback points the scenario passes under the default schedule without injection.
+pub fn count_points(sc: &Scen) -> u64 {
+    MAX_POINTS.store(0, std::sync::atomic::Ordering::SeqCst);
+    let mut sc2 = sc.clone();
+    sc2.oracle = Oracle::Fault(-1);
+    let cfg = Config { bound: 0, max_schedules: Some(1), ..Config::default() };
+    let _ = shuttle::explore(cfg, move || scen_body(&sc2));
+    VIOLS.lock().unwrap().clear();
+    OUTCOMES.lock().unwrap().clear();
+    COUNTERS.lock().unwrap().clear();
+    MAX_POINTS.load(std::sync::atomic::Ordering::SeqCst)
+}
+
+pub static MAX_POINTS: std::sync::atomic::AtomicU64 = std::sync::atomic::AtomicU64::new(0);
 
 /// C20: readers on clones, a concurrent write on the main handle, then a second phase.
 fn writer_body(sc: &Scen) {
@@ -441,6 +564,7 @@ fn scen_body(sc: &Scen) {
     match sc.oracle {
         Oracle::Writer => return writer_body(sc),
         Oracle::LocalCancel => return cancel_body(sc),
+        Oracle::Fault(i) => return fault_body(sc, i),
         _ => {}
     }
     let prog = Arc::new(sc.prog.clone());
